@@ -128,7 +128,7 @@ def corrupt_hist(hist, outp, n=10):
 
 def conc_traces(vh, scr, prop, seed, quick, out):
     total = 0
-    for broker, n, tag in ((True, 150 if quick else 1500, "b"), (False, 50 if quick else 400, "nb")):
+    for broker, n, tag in ((True, 150 if quick else 1500, "b"), (False, 120 if quick else 1000, "nb")):
         t0 = time.time()
         hist, rep = record_hist(vh, scr, seed, n, broker, tag)
         for pn in rep["panics"]:
